@@ -54,6 +54,13 @@ def key(case):
 
 
 def oracle(case):
+    try:
+        return oracle_(case)
+    except Exception as ex:  # noqa: BLE001
+        return False, f"{case.get('hedge')}({case.get('x')}): evaluating the hedge (scalar or array) raised {type(ex).__name__}: {ex}"
+
+
+def oracle_(case):
     name, x = case["hedge"], float(case["x"])
     if name not in hedges():
         return False, f"hedge {name} is not registered"
